@@ -34,6 +34,9 @@ type savedReplay struct {
 	ReplayCmd string        `json:"replay_cmd"`
 }
 
+// mutFiles: engine/replay overlays given with -mut (original path -> replacement file)
+var mutFiles = map[string]string{}
+
 var harnessFileCache map[string]string
 
 // harnessFile finds the file under harness/ that defines func <name>.
@@ -156,7 +159,7 @@ func replayTrace(harness string, tr *vsched.Trace, sites []report.Site, scratch,
 	sort.Strings(files)
 	testFile := filepath.Join(dir, "zz_replay_test.go")
 	os.WriteFile(testFile, []byte(fmt.Sprintf(replayTestTmpl, harness)), 0o644)
-	overlay, err := vinstr.Instrument(dir, files, map[string]string{filepath.Join(modDir, "harness", "zz_replay_test.go"): testFile})
+	overlay, err := vinstr.Instrument(dir, files, map[string]string{filepath.Join(modDir, "harness", "zz_replay_test.go"): testFile}, mutFiles)
 	if err != nil {
 		return replayResult{Detail: "instrumentation failed: " + err.Error()}
 	}
@@ -244,7 +247,11 @@ func replayTrace(harness string, tr *vsched.Trace, sites []report.Site, scratch,
 func replayRace(harness string, sites []report.Site, dir string) replayResult {
 	testFile := filepath.Join(dir, "zz_race_test.go")
 	os.WriteFile(testFile, []byte(fmt.Sprintf(raceTestTmpl, harness)), 0o644)
-	ov := map[string]interface{}{"Replace": map[string]string{filepath.Join(modDir, "harness", "zz_race_test.go"): testFile}}
+	repl := map[string]string{filepath.Join(modDir, "harness", "zz_race_test.go"): testFile}
+	for k, v := range mutFiles {
+		repl[k] = v
+	}
+	ov := map[string]interface{}{"Replace": repl}
 	b, _ := json.Marshal(ov)
 	overlay := filepath.Join(dir, "overlay.json")
 	os.WriteFile(overlay, b, 0o644)
